@@ -213,10 +213,14 @@ func CheckRestartState(sys *core.Sys, specs []gen.PipeSpec, wantIDs []string, la
 	}
 	// the first request for every pipeline is accepted, and starts at once if there is no start delay
 	probes := map[string]string{}
+	delayed := map[string]string{}
 	for _, sp := range specs {
 		id, cls := sys.Schedule(0, sp.Name, nil, "probe")
 		if cls == "ok" && sp.Def.StartDelay == 0 {
 			probes[id] = sp.Name
+		}
+		if cls == "ok" && sp.Def.StartDelay > 0 && !sp.Graph.Cyclic {
+			delayed[id] = sp.Name
 		}
 		if cls != "ok" {
 			find("C10:first-request-after-restart-rejected", "%s: the first schedule request for %s after the restart was rejected: %s", label, sp.Name, cls)
@@ -226,6 +230,19 @@ func CheckRestartState(sys *core.Sys, specs []gen.PipeSpec, wantIDs []string, la
 			if j, ok := sys.ReadJob(id); ok && j.Start == nil {
 				find("C10:first-request-after-restart-not-started", "%s: the first job of %s after the restart did not start at once (ghosts hold the slots?)", label, sp.Name)
 			}
+		}
+	}
+	// a start delay works on a restarted runner as on a fresh one: the job waits until its delay has passed (it is fired
+	// logically here) and starts then - nothing that was loaded from the store occupies the pipeline
+	for id, p := range delayed {
+		if j, ok := sys.ReadJob(id); ok && j.Start != nil {
+			find("C07:delayed-job-after-restart-started-before-its-delay", "%s: the job accepted for the delayed pipeline %s after the restart started before its delay had passed", label, p)
+			continue
+		}
+		sys.FireDelay(0, id)
+		sit("start delay of a job accepted after the restart passes")
+		if j, ok := sys.ReadJob(id); ok && j.Start == nil && !j.Canceled {
+			find("C07:delayed-job-after-restart-never-starts", "%s: the delay of the job accepted for pipeline %s after the restart has passed, no job of this runner occupies the pipeline, yet the job does not start", label, p)
 		}
 	}
 	// let the probes (and whatever they wait for) run to their end
@@ -358,6 +375,9 @@ func restartProps(sig string) []string {
 	}
 	if sig == "C10:first-request-after-restart-rejected" {
 		return []string{"C10", "C05"}
+	}
+	if len(sig) > 4 && sig[:4] == "C07:" {
+		return []string{"C07", "C10", "C03"}
 	}
 	if len(sig) > 4 && sig[:4] == "C11:" {
 		return []string{"C11", "C10"}
@@ -548,6 +568,9 @@ func PreparedStoreCase(seed int64, workDir string) *HistResult {
 		res.sit("C15", fmt.Sprintf("restart on a store with a job in state %d: listings vs job flags", state))
 		res.sit("C05", fmt.Sprintf("restart on a store with a job in state %d: the first request is judged like on an idle pipeline", state))
 		res.sit("C11", fmt.Sprintf("restart on a store with a job in state %d: graceful shutdown returns", state))
+		if sp.Def.StartDelay > 0 {
+			res.sit("C07", fmt.Sprintf("restart on a store with a job of a delayed pipeline in state %d: the next job waits for its delay and starts then", state))
+		}
 	}
 	dir, err := os.MkdirTemp(workDir, "prepared-")
 	if err != nil {
